@@ -65,7 +65,15 @@ def families(args):
         return out
 
     items = [Item(n) for n in sorted(results)]
-    return [ppprop.Family('tiling-vc', items, None, ('tiling',), custom_work=work)]
+    # the tree refers to the preprocessed text: parse_sv_pp / parse_lib_pp hand exactly text.text() to the parser (wrapper MIR)
+    import c20
+
+    class W:
+        def __init__(self, c):
+            self.label, self.fn = 'wrapper/' + c.label, c.fn
+    wrappers = [W(c20.pp_case(False)), W(c20.pp_case(True))]
+    return [ppprop.Family('tiling-vc', items, None, ('tiling',), custom_work=work),
+            ppprop.Family('text-handed-to-parser', wrappers, None, ('args', 'panic'), custom_work=lambda w: w.fn())]
 
 
 def main():
